@@ -1,7 +1,7 @@
 (* C11 — Switches are exhaustive, non-redundant, and dispatch on the runtime variant.
    Only statements, [exact]s and [Print Assumptions] live here. *)
-From Capy Require Import Common.Util Model.Switch Spec.SwitchSpec
-  Proofs.SwitchDiscr Proofs.SwitchCheck Proofs.SwitchDispatch Proofs.SwitchSpecb Proofs.SwitchWitness.
+From Capy Require Import Common.Util Model.Switch Model.SwitchFixed Spec.SwitchSpec
+  Proofs.SwitchDiscr Proofs.SwitchCheck Proofs.SwitchDispatch Proofs.SwitchSpecb Proofs.SwitchFixed Proofs.SwitchWitness.
 
 Local Open Scope N_scope.
 
@@ -154,6 +154,78 @@ Theorem C11_witness_discriminant_too_big :
   compile_switch (SEnum 5 [vA255; vB256; vC257]) [AShort 10; AShort 11; AShort 12] false false = Crash 273.
 Proof. exact witness_discriminant_too_big. Qed.
 Print Assumptions C11_witness_discriminant_too_big.
+
+(* ------------------------------------------------- the repaired model *)
+(* Model/SwitchFixed.v is the model with the candidate repairs of K1..K5, each
+   switchable by [f : fixes]; the check drives it with the repairs it detects
+   in the tree.  The refutations above are about the faithful model
+   (= the repaired model with no repair, next three theorems) and stay as the
+   record of what the unrepaired compiler does. *)
+Theorem C11_fx_check_no_fixes : forall s arms dflt,
+  check_switch_fx no_fixes s arms dflt = check_switch s arms dflt.
+Proof. exact check_fx_no_fixes. Qed.
+Print Assumptions C11_fx_check_no_fixes.
+
+Theorem C11_fx_dispatch_no_fixes : forall sh arms dflt w j,
+  dispatch_fx no_fixes sh arms dflt w j = dispatch sh arms dflt w j.
+Proof. exact dispatch_fx_no_fixes. Qed.
+Print Assumptions C11_fx_dispatch_no_fixes.
+
+Theorem C11_fx_assign_no_fixes : forall ms,
+  assign_discriminants_fx no_fixes ms = (do ds <- assign_discriminants ms; Ok (ds, [])).
+Proof. exact assign_fx_no_fixes. Qed.
+Print Assumptions C11_fx_assign_no_fixes.
+
+(* Whatever repairs are present: no panic outside the classes still open. *)
+Theorem C11_fx_check_no_crash_except_known : forall f s arms dflt,
+  known_check_class_fx f s arms = None ->
+  exists ds, check_switch_fx f s arms dflt = Ok ds.
+Proof. exact check_fx_total_except_known. Qed.
+Print Assumptions C11_fx_check_no_crash_except_known.
+
+(* K1 and K3 repaired: the FULL statement — the checker never panics. *)
+Theorem C11_fx_check_no_crash_full : forall f, fx1 f = true -> fx3 f = true ->
+  forall s arms dflt, exists ds, check_switch_fx f s arms dflt = Ok ds.
+Proof. exact check_no_crash_fx_full. Qed.
+Print Assumptions C11_fx_check_no_crash_full.
+
+(* K1 repaired: acceptance is exactly the specification for EVERY scrutinee,
+   distinct / variant wrappers included (without the repair: unwrapped ones). *)
+Theorem C11_fx_check_accepts_iff : forall f s arms dflt,
+  (fx1 f = true \/ wrapped s = false) ->
+  wf_shape (s_shape s) ->
+  (check_switch_fx f s arms dflt = Ok [] <-> accepted_spec (s_shape s) arms dflt).
+Proof. exact check_fx_accepts_iff. Qed.
+Print Assumptions C11_fx_check_accepts_iff.
+
+(* K2 repaired: a declaration that is not reported has discriminants that fit the tag
+   (manual discriminants are u8 values: expect_match reports larger literals). *)
+Theorem C11_fx_discr_fit : forall f ms ds,
+  fx2 f = true ->
+  (forall x, In x (somes ms) -> x < 256) ->
+  assign_discriminants_fx f ms = Ok (ds, []) ->
+  Forall (fun d => d < 256) ds.
+Proof. exact discr_fit_fx. Qed.
+Print Assumptions C11_fx_discr_fit.
+
+(* Whatever repairs are present: exact dispatch outside the classes still open. *)
+Theorem C11_fx_dispatch_exact_except_known : forall f sh arms dflt with_arg,
+  wf_shape sh -> wf_tags sh ->
+  accepted_spec sh arms dflt ->
+  known_codegen_class_fx f sh arms dflt with_arg = None ->
+  forall j, (j < length (variants_of sh))%nat ->
+    dispatch_fx f sh arms dflt with_arg j = Ok (spec_outcome sh arms with_arg j).
+Proof. exact dispatch_fx_exact. Qed.
+Print Assumptions C11_fx_dispatch_exact_except_known.
+
+(* K4 and K5 repaired: the FULL dispatch statement. *)
+Theorem C11_fx_dispatch_full : forall f, fx4 f = true -> fx5 f = true ->
+  forall sh arms dflt with_arg,
+    wf_shape sh -> wf_tags sh -> accepted_spec sh arms dflt ->
+    forall j, (j < length (variants_of sh))%nat ->
+      dispatch_fx f sh arms dflt with_arg j = Ok (spec_outcome sh arms with_arg j).
+Proof. exact dispatch_fx_full. Qed.
+Print Assumptions C11_fx_dispatch_full.
 
 (* ------------------------------------------------------------ non-vacuity *)
 Example C11_example_check :
